@@ -239,3 +239,151 @@ Proof.
   unfold sig. repeat split; congruence.
 Qed.
 End AC.
+
+(* ------------------------------------------------------------------ *)
+(* Exactness: every expression is AC-equivalent to its normal form, hence equal
+   signatures imply AC-equivalence (the converse of ac_same_sig). *)
+Section Exact.
+Variable comm : binop -> bool.
+Notation ac' := (ac comm).
+Notation nrm := (norm comm).
+
+Lemma rebuild_acc_cong op : forall l a a', ac' a a' -> ac' (rebuild op a l) (rebuild op a' l).
+Proof.
+  induction l as [|h t IH]; intros a a' H; simpl; auto.
+  apply IH. apply ac_bin; [exact H|apply ac_refl].
+Qed.
+
+Lemma rebuild_app op : forall l1 l2 a, rebuild op a (l1 ++ l2) = rebuild op (rebuild op a l1) l2.
+Proof. induction l1 as [|h t IH]; intros l2 a; simpl; auto. Qed.
+
+Lemma swap_last op a x y : comm op = true -> ac' (Bin op (Bin op a y) x) (Bin op (Bin op a x) y).
+Proof.
+  intros Hc.
+  eapply ac_trans; [apply ac_assoc; exact Hc|].
+  eapply ac_trans; [apply ac_bin; [apply ac_refl|apply ac_comm; exact Hc]|].
+  apply ac_sym. apply ac_assoc. exact Hc.
+Qed.
+
+Lemma rebuild_perm op l l' : comm op = true -> Permutation l l' ->
+  forall a, ac' (rebuild op a l) (rebuild op a l').
+Proof.
+  intros Hc P. induction P as [|x l1 l2 P IH|x y l1|l1 l2 l3 P1 IH1 P2 IH2]; intros a; simpl.
+  - apply ac_refl.
+  - apply IH.
+  - apply rebuild_acc_cong. apply swap_last. exact Hc.
+  - eapply ac_trans; [apply IH1|apply IH2].
+Qed.
+
+Lemma rebuild_head_swap op h x t : comm op = true ->
+  ac' (rebuild op h (x :: t)) (rebuild op x (h :: t)).
+Proof. intros Hc. simpl. apply rebuild_acc_cong. apply ac_comm. exact Hc. Qed.
+
+Lemma rb_perm op h t h' t' : comm op = true -> Permutation (h :: t) (h' :: t') ->
+  ac' (rebuild op h t) (rebuild op h' t').
+Proof.
+  intros Hc P.
+  assert (Hin : In h (h' :: t')) by (eapply Permutation_in; [exact P|left; reflexivity]).
+  destruct Hin as [E|Hin].
+  - subst h'. apply rebuild_perm; auto. eapply Permutation_cons_inv; eauto.
+  - apply in_split in Hin as (t1 & t2 & ->).
+    assert (P' : Permutation t (h' :: t1 ++ t2)).
+    { apply (Permutation_cons_inv (a := h)).
+      eapply perm_trans; [exact P|].
+      eapply perm_trans; [apply perm_skip; apply Permutation_sym; apply Permutation_middle|].
+      apply perm_swap. }
+    eapply ac_trans; [apply rebuild_perm; [exact Hc|exact P']|].
+    eapply ac_trans; [apply rebuild_head_swap; exact Hc|].
+    apply rebuild_perm; auto. apply Permutation_middle.
+Qed.
+
+Lemma bin_rebuild op : comm op = true -> forall l X b,
+  ac' (Bin op X (rebuild op b l)) (rebuild op (Bin op X b) l).
+Proof.
+  intros Hc. induction l as [|y t IH]; intros X b; simpl.
+  - apply ac_refl.
+  - eapply ac_trans; [apply IH|].
+    apply rebuild_acc_cong. apply ac_sym. apply ac_assoc. exact Hc.
+Qed.
+
+Definition rbl (op : binop) (l : list expr) (d : expr) : expr :=
+  match l with [] => d | h :: t => rebuild op h t end.
+
+Lemma rbl_app op a A b B d : comm op = true ->
+  ac' (Bin op (rbl op (a :: A) d) (rbl op (b :: B) d)) (rbl op ((a :: A) ++ (b :: B)) d).
+Proof.
+  intros Hc. simpl. rewrite rebuild_app. simpl. apply bin_rebuild. exact Hc.
+Qed.
+
+Definition ToNorm (e : expr) : Prop :=
+  ac' e (nrm e) /\ forall op, comm op = true -> ac' e (rbl op (chain' comm op e) e).
+
+Lemma to_norm_single e X :
+  (forall c, nt comm c e = (X, [])) -> ac' e X -> ToNorm e.
+Proof.
+  intros Hnt H. split.
+  - unfold norm. rewrite Hnt. exact H.
+  - intros op _. unfold chain'. rewrite Hnt. simpl. exact H.
+Qed.
+
+Lemma acl_norm args : Forall ToNorm args -> acl comm args (map (fun a => fst (nt comm None a)) args).
+Proof.
+  induction 1 as [|a t [Ha _] _ IH]; simpl; constructor; auto.
+Qed.
+
+Lemma acp_norm rest : Forall (fun p => ToNorm (snd p)) rest ->
+  acp comm rest (map (fun p => match p with (o, a) => (o, fst (nt comm None a)) end) rest).
+Proof.
+  induction 1 as [|[o a] t [Ha _] _ IH]; simpl; constructor; auto.
+Qed.
+
+Theorem ac_to_norm : forall e, ToNorm e.
+Proof.
+  induction e as [x|n|o a IHa|o l r IHl IHr|c t f IHc IHt IHf|f args IH|l rest IHl IH|o vs IH] using expr_ind'.
+  - apply (to_norm_single _ (Var x)); auto. apply ac_refl.
+  - apply (to_norm_single _ (Const n)); auto. apply ac_refl.
+  - apply (to_norm_single _ (Un o (nrm a))); auto. apply ac_un. apply IHa.
+  - destruct (comm o) eqn:Hc.
+    + destruct IHl as [_ IHl]. destruct IHr as [_ IHr].
+      specialize (IHl o Hc). specialize (IHr o Hc).
+      assert (Hflat : ac' (Bin o l r) (rbl o (chain' comm o l ++ chain' comm o r) (Bin o l r))).
+      { eapply ac_trans; [apply ac_bin; [exact IHl|exact IHr]|].
+        unfold chain'. apply (rbl_app o _ _ _ _ (Bin o l r) Hc). }
+      split.
+      * rewrite norm_bin_comm by auto. eapply ac_trans; [exact Hflat|].
+        unfold rebuild_sorted.
+        pose proof (ksort_perm _ dump (chain' comm o l ++ chain' comm o r)) as P.
+        destruct (ksort dump (chain' comm o l ++ chain' comm o r)) as [|h tl] eqn:E.
+        -- apply Permutation_sym, Permutation_nil in P. unfold chain' in P. discriminate.
+        -- unfold chain' in *. simpl app in *. simpl rbl. apply rb_perm; auto.
+      * intros op Hop. destruct (binop_eqb o op) eqn:Eo.
+        -- apply binop_eqb_eq in Eo. subst op. rewrite chain_bin_same by auto.
+           unfold chain' in *. simpl app in *. simpl rbl in *. exact Hflat.
+        -- rewrite (chain_bin_other comm o op) by auto. unfold rbl at 1. cbn [rebuild].
+           eapply ac_trans; [exact Hflat|]. unfold rebuild_sorted.
+           pose proof (ksort_perm _ dump (chain' comm o l ++ chain' comm o r)) as P.
+           destruct (ksort dump (chain' comm o l ++ chain' comm o r)) as [|h tl] eqn:E.
+           ++ apply Permutation_sym, Permutation_nil in P. unfold chain' in P. discriminate.
+           ++ unfold chain' in *. simpl app in *. simpl rbl. apply rb_perm; auto.
+    + apply (to_norm_single _ (Bin o (nrm l) (nrm r))).
+      * intros c. simpl. rewrite Hc. reflexivity.
+      * apply ac_bin; [apply IHl|apply IHr].
+  - apply (to_norm_single _ (IfE (nrm c) (nrm t) (nrm f))); auto.
+    apply ac_if; [apply IHc|apply IHt|apply IHf].
+  - apply (to_norm_single _ (Call f (map (fun a => fst (nt comm None a)) args))); auto.
+    apply ac_call. apply acl_norm; auto.
+  - apply (to_norm_single _ (Cmp (nrm l)
+             (map (fun p => match p with (o, a) => (o, fst (nt comm None a)) end) rest))); auto.
+    apply ac_cmp; [apply IHl|apply acp_norm; auto].
+  - apply (to_norm_single _ (BoolE o (map (fun a => fst (nt comm None a)) vs))); auto.
+    apply ac_bool. apply acl_norm; auto.
+Qed.
+
+Theorem sig_exact e1 e2 : wf e1 = true -> wf e2 = true ->
+  sig comm e1 = sig comm e2 -> ac' e1 e2.
+Proof.
+  intros W1 W2 H. pose proof (sig_norm comm e1 e2 W1 W2 H) as E.
+  eapply ac_trans; [apply (proj1 (ac_to_norm e1))|]. rewrite E.
+  apply ac_sym. apply (proj1 (ac_to_norm e2)).
+Qed.
+End Exact.
